@@ -143,6 +143,9 @@ type Entry struct {
 	Applied    bool     // a state change was applied
 	Missing    []string // manifest PUT: referenced digests absent at that instant
 	Note       string
+	// Ctx is the context of the HTTP request (values set by the caller of the client operation travel with it,
+	// so a check can tell which of its concurrent operations a request belongs to)
+	Ctx context.Context `json:"-"`
 }
 
 // Mutating tells whether the request method is state changing.
@@ -416,6 +419,7 @@ func (m *Model) RoundTrip(req *http.Request) (*http.Response, error) {
 	e := &Entry{
 		Seq: len(m.Log), Host: host, Scheme: req.URL.Scheme, Method: req.Method, Path: req.URL.Path,
 		RawQuery: req.URL.RawQuery, Header: req.Header.Clone(), Body: body, Arrive: time.Since(m.start),
+		Ctx: req.Context(),
 	}
 	if h != nil {
 		e.HostSeq = h.seq
